@@ -20,9 +20,15 @@ def I9(so, st=None):
     log = st.get('raftLog') if st else so.log()
     noop, cci, applied = g('noopIDx'), g('changeClusterIDx'), g('raftLastApplied')
     i = z3.Int('i9')
-    lo = z3.If(noop.val > applied, noop.val, applied)
-    body = z3.Implies(z3.And(i > lo, i <= log.last_idx(), _ctype(log.cmd_at(i)) == 2),
-                      z3.And(z3.Not(cci.isnone), i <= cci.val))
+    nv = noop.val if isinstance(noop, Opt) else noop
+    lo = z3.If(nv > applied, nv, applied)
+    if isinstance(cci, Opt):
+        bound = z3.And(z3.Not(cci.isnone), i <= cci.val)
+    elif cci is None:
+        bound = z3.BoolVal(False)
+    else:
+        bound = i <= cci
+    body = z3.Implies(z3.And(i > lo, i <= log.last_idx(), _ctype(log.cmd_at(i)) == 2), bound)
     return i, body
 
 
